@@ -27,6 +27,9 @@ class HarnessBug(Exception):
     pass
 
 
+DEAD_PREFIX = "192.0.2."  # TEST-NET-1: the addresses of Net.dead_first
+
+
 class VClock:
     """Virtual time: monotonic()/time() read it, sleep() records and advances it."""
 
@@ -121,6 +124,12 @@ class FakeSocket:
             raise OSError(errno.EBADF, "Bad file descriptor")
         self.addr = sa
         self.net.log("connect", self.sid, sa, self.timeout)
+        if str(sa[0]).startswith(DEAD_PREFIX):
+            # one of the additional addresses the name resolved to: nothing listens there
+            self.dialled_dead = True
+            if int(str(sa[0]).rsplit(".", 1)[1]) % 2:
+                raise ConnectionRefusedError(errno.ECONNREFUSED, "Connection refused")
+            raise _socket.timeout("timed out")
         self.net.on_connect(self, sa)  # may raise
         self.connected = True
         self.net.note_open(self)
@@ -132,6 +141,8 @@ class FakeSocket:
         data = bytes(data)
         self.net.log("send", self.sid, len(data), self.timeout)
         self.net.check_owner(self, "send")
+        if not data:
+            return None  # an empty send (SSLTransport flushes an empty BIO) puts nothing on the wire and is no arrival event
         self.tx_events.append((threading.get_ident(), len(data)))
         if self.endpoint is not None:
             self.endpoint.on_send(self, data)  # may raise (send fault); records into self.tx itself
@@ -269,6 +280,7 @@ class Net:
         self.dials: list = []  # (host, port, timeout, source_address-ish)
         self.gai_calls: list = []
         self.owner_check: typing.Callable | None = None
+        self.dead_first = 0  # names resolve to this many addresses where nothing listens, followed by the real one
         self._saved: list = []
 
     # -- logging / accounting
@@ -312,7 +324,8 @@ class Net:
                 ep.on_resolve(host, port)  # may raise socket.gaierror
             fam = _socket.AF_INET6 if ":" in host else _socket.AF_INET
             sa = (host, port, 0, 0) if fam == _socket.AF_INET6 else (host, port)
-            return [(fam, _socket.SOCK_STREAM, 6, "", sa)]
+            dead = [(_socket.AF_INET, _socket.SOCK_STREAM, 6, "", (DEAD_PREFIX + str(i + 1), port)) for i in range(net.dead_first)]
+            return dead + [(fam, _socket.SOCK_STREAM, 6, "", sa)]
 
         def mksock(family=_socket.AF_INET, type=_socket.SOCK_STREAM, proto=0, fileno=None):
             return FakeSocket(net, family, type, proto)
